@@ -16,7 +16,7 @@ PY_CORE = "PyLibCore PySrcCore PySrcCoreFacts"                    # succession_d
 PY_CORE2 = PY_CORE + " PyLibCore2 PySrcCore2 PySrcCore2Facts PySrcInitFacts"    # succession_diagram.py: skip_to_minimal, skip_remaining, depth, reclaim_node_data
 PY_MIN = "PyLib PyLibSd PyLibCore PyLibSd2 PySrcSdBase PySrcSdMin PySrcSdMinFacts"   # _sd_algorithms/expand_minimal_spaces.py
 PY_ASEEDS = PY_MIN + " Candidates Blocks ASeeds PySrcSdASeeds PySrcSdASeedsFacts"     # _sd_algorithms/expand_attractor_seeds.py
-EXTRA_IMPORTS = {"C02": PY_SD + " " + PY_CORE2 + " PySrcEndToEnd", "C03": PY_SD + " " + PY_ASEEDS, "C04": PY_SD + " " + PY_CORE, "C05": PY_CORE2 + " " + PY_MIN, "C13": PY_SD + " " + PY_TARGET + " " + PY_ASEEDS + " PySrcTermFacts", "C14": PY_CORE2, "C15": PY_SD + " " + PY_TARGET + " " + PY_ASEEDS, "C16": "PyLib PyLibPickle PySrcPickle PySrcPickleFacts " + PY_CORE2,
+EXTRA_IMPORTS = {"C02": PY_SD + " " + PY_CORE2 + " PySrcEndToEnd", "C03": PY_SD + " " + PY_ASEEDS + " PySrcComplFacts", "C04": PY_SD + " " + PY_CORE, "C05": PY_CORE2 + " " + PY_MIN, "C13": PY_SD + " " + PY_TARGET + " " + PY_ASEEDS + " PySrcTermFacts", "C14": PY_CORE2, "C15": PY_SD + " " + PY_TARGET + " " + PY_ASEEDS, "C16": "PyLib PyLibPickle PySrcPickle PySrcPickleFacts " + PY_CORE2,
                  "C06": PY_SPACE + " " + PY_TARGET + " PySrcEndToEndControl", "C10": PY_PLACE, "C19": PY_SD + " " + PY_CORE, "C20": PY_KEY + " " + PY_CORE2}
 
 def imports_for(pid):
@@ -140,7 +140,9 @@ strongly connected, pairwise disjoint sets of source_sccs_spec, every node it cr
 leaves every node expanded with the expanded leaves being exactly the minimal trap spaces (expand_scc_AllExpanded,
 expand_scc_LeafOK, expand_scc_MinFound) -- although the diagram it builds is not faithful (D15).  So every strategy of the
 statement has a theorem.""",
- theorems=[("source_expand_minimal_spaces", "py_expand_minimal_spaces_spec", "translator tie: the function GENERATED from the current text of biobalm/_sd_algorithms/expand_minimal_spaces.py (with its nested make_skip_node; PySrcSdMin.v) equals the model's expand_min on every well-formed diagram, for every start node, limit, skip option and fuel, given the tape contract"),
+ theorems=[("source_text_expand_minimal_spaces_complete", "py_expand_minimal_spaces_complete", "C03 for the SOURCE TEXT: when the generated public methods report completion, every minimal trap space is found / everything is expanded"),
+           ("source_text_expand_attractor_seeds_complete", "py_expand_attractor_seeds_MinFound", None), ("source_text_expand_bfs_complete", "py_expand_bfs_complete", None), ("source_text_expand_dfs_complete", "py_expand_dfs_complete", None),
+           ("source_expand_minimal_spaces", "py_expand_minimal_spaces_spec", "translator tie: the function GENERATED from the current text of biobalm/_sd_algorithms/expand_minimal_spaces.py (with its nested make_skip_node; PySrcSdMin.v) equals the model's expand_min on every well-formed diagram, for every start node, limit, skip option and fuel, given the tape contract"),
            ("source_public_expand_minimal_spaces", "py_api_expand_minimal_spaces_spec", None),
            ("source_expand_attractor_seeds", "py_expand_attractor_seeds_spec", "translator tie: the function GENERATED from the current text of biobalm/_sd_algorithms/expand_attractor_seeds.py (PySrcSdASeeds.v: the initial minimal-space expansion, the DFS with the candidate query -- avoid sets, heuristic retained set, reduced-STG fixed points -- and the NFVS tape) equals the model's ASeeds.expand_aseeds"),
            ("source_public_expand_attractor_seeds", "py_api_expand_attractor_seeds_spec", None),
